@@ -444,6 +444,62 @@ mod probe {
     }
 }
 
+// two real threads, each: guard = new(fix_t); read the mode; drop(guard), stepped in the order the schedule gives
+fn intmode_threads_k(inputs: &Value) -> Value {
+    use chialisp::compiler::clvm::NewStyleIntConversion;
+    use std::sync::mpsc::channel;
+    let m = [inputs["m0"].as_bool().unwrap(), inputs["m1"].as_bool().unwrap_or(true)];
+    let fix = [inputs["fix"].as_bool().unwrap(), inputs["fix2"].as_bool().unwrap_or(false)];
+    let sched: Vec<bool> = inputs["sched"].as_array().map(|a| a.iter().map(|b| b.as_bool().unwrap_or(false)).collect()).unwrap_or_default();
+    let mut cmd_tx = Vec::new();
+    let mut ack_rx = Vec::new();
+    let mut handles = Vec::new();
+    for t in 0..2 {
+        let (ctx, crx) = channel::<u8>();
+        let (atx, arx) = channel::<(bool, bool)>();
+        cmd_tx.push(ctx);
+        ack_rx.push(arx);
+        let (mt, ft) = (m[t], fix[t]);
+        handles.push(std::thread::spawn(move || {
+            let _outer = NewStyleIntConversion::new(mt);
+            let init = probe::mode_now();
+            let mut guard = None;
+            let mut sees_own = false;
+            atx.send((true, true)).unwrap();
+            while let Ok(c) = crx.recv() {
+                match c {
+                    0 => { guard = Some(NewStyleIntConversion::new(ft)); }
+                    1 => { sees_own = probe::mode_now() == ft; }
+                    2 => { guard = None; }
+                    _ => { atx.send((sees_own, probe::mode_now() == init)).unwrap(); std::mem::forget(_outer); return; }
+                }
+                atx.send((true, true)).unwrap();
+            }
+            let _ = guard;
+        }));
+        ack_rx[t].recv().unwrap();         // thread t has set its starting mode before thread t+1 starts
+    }
+    let mut pcs = [0u8, 0u8];
+    let mut i = 0;
+    while pcs[0] < 3 || pcs[1] < 3 {
+        let t = if pcs[0] >= 3 { 1 } else if pcs[1] >= 3 { 0 } else if sched.get(i).copied().unwrap_or(false) { 1 } else { 0 };
+        i += 1;
+        cmd_tx[t].send(pcs[t]).unwrap();
+        ack_rx[t].recv().unwrap();
+        pcs[t] += 1;
+    }
+    let mut sees = Vec::new();
+    let mut restored = Vec::new();
+    for t in 0..2 {
+        cmd_tx[t].send(9).unwrap();
+        let (s, r) = ack_rx[t].recv().unwrap();
+        sees.push(s);
+        restored.push(r);
+    }
+    for h in handles { let _ = h.join(); }
+    json!({"sees_own": sees, "restored": restored})
+}
+
 fn intmode_k(case: &Value, inputs: &Value) -> Value {
     use chialisp::compiler::clvm::NewStyleIntConversion;
     use chialisp::compiler::compiler::{compile_file, DefaultCompilerOpts};
@@ -453,6 +509,9 @@ fn intmode_k(case: &Value, inputs: &Value) -> Value {
     use chialisp::compiler::srcloc::Srcloc;
     use std::cell::RefCell;
     use std::collections::HashMap;
+    if case["fn"].as_str() == Some("threads") {
+        return intmode_threads_k(inputs);
+    }
     let m0 = inputs["m0"].as_bool().unwrap();
     let fix = inputs["fix"].as_bool().unwrap();
     let _outer = NewStyleIntConversion::new(m0);
